@@ -134,6 +134,15 @@ func genValues(g simkit.G, n int) ([]float64, string) {
 			xs[i] = m
 		}
 	}
+	if g.Chance(1, 10) && n > 0 {
+		// the whole stream scaled by an exact power of two near the ends of the
+		// range in which squares neither overflow nor underflow
+		e := []int{460, -460, 300, -300}[g.Intn(4)]
+		for i := range xs {
+			xs[i] = math.Ldexp(xs[i], e)
+		}
+		name += fmt.Sprintf("*2^%d", e)
+	}
 	return xs, name
 }
 
